@@ -54,11 +54,14 @@ class Rig:
     installed = False
     current: "Rig | None" = None
 
-    def __init__(self):
+    def __init__(self, debug=False):
         from vf.simnet.harness import Harness
         import diameter.node.peer as peer_mod
         self.peer_mod = peer_mod
-        self.h = Harness(poll=0.004)
+        # every other reader runs with the library's loggers at DEBUG (records are counted and dropped): what the read
+        # loop computes only for a debug line is computed then, inside its framing code
+        self.debug = debug
+        self.h = Harness(poll=0.004, debug_logging=self.debug)
         self.rp, self.wp = os.pipe()
         os.set_blocking(self.rp, False)
         self.delivered = []
@@ -256,7 +259,9 @@ def split(stream: bytes, cuts):
 
 class Run:
     def __init__(self, spec):
-        self.rig = Rig()
+        # shards alternate (by name) between WARNING and DEBUG
+        self.debug = sum(map(ord, spec.get("name", ""))) % 2 == 0
+        self.rig = Rig(debug=self.debug)
         self.evals = 0
         self.hashes = set()
         self.wit = []
@@ -264,7 +269,8 @@ class Run:
         self.cov = {"one_cut_cases": 0, "two_cut_cases": 0, "random_cut_cases": 0, "bad_frame_cases": {},
                     "outcomes_after_bad": {}, "header_parses": 0, "reader_threads_used": 1, "modes": {},
                     "cut_classes": {"in_header": 0, "at_boundary": 0, "in_body": 0}, "max_stream_bytes": 0,
-                    "exhaustive_1cut_2cut_for_short_streams": True}
+                    "exhaustive_1cut_2cut_for_short_streams": True,
+                    "shards_with_debug_logging": int(self.debug)}
 
     def witness(self, key, detail, replay=None):
         if len(self.wit) < 200:
